@@ -5,6 +5,8 @@ CONSTANTS
   Names = {"x"}
   Keys <- MCKeys
   ValChoice <- MCVal
+  OpenCands <- Locs
+  MergeCands <- AllPairs
   MaxDepth = 3
   Record = FALSE
   Fat = FALSE
